@@ -1704,7 +1704,16 @@ impl<'a> Socket<'a> {
 
         let window_start = self.remote_seq_no + self.rx_buffer.len();
         let window_end = if let Some(last_ack) = self.remote_last_ack {
-            last_ack + ((self.remote_last_win as usize) << self.remote_win_shift)
+            let window_end = last_ack + ((self.remote_last_win as usize) << self.remote_win_shift);
+            // A FIN accepted at the very edge of the advertised window consumes one sequence
+            // number more than was advertised; until the next ACK is sent the recorded edge
+            // then lies one before RCV.NXT. Treat that as a zero window rather than as an
+            // inverted range (which modular comparisons would misjudge).
+            if window_end < window_start {
+                window_start
+            } else {
+                window_end
+            }
         } else {
             window_start
         };
